@@ -213,10 +213,19 @@ TDBA ==
   /\ LET rows == SelectSeq(ev.rows, LAMBDA row : Modelled(row.k))
          New(k) == k \in DOMAIN plan.db /\ RowMatches(k, plan.db[k], RowOf(rows, k))
          Old(k) == k \in DOMAIN db /\ RowMatches(k, db[k], RowOf(rows, k))
+         (* a command whose task found the build cancelled completes as cancelled (or skipped), a node produced by   *)
+         (* it as a failed input; such results may be stored - they are never valid, so the next build retries them *)
+         Art(k) == LET row == RowOf(rows, k) IN
+                   /\ row.built = epoch + 1 /\ row.computed <= epoch + 1
+                   /\ \/ k.t = "C" /\ row.val.k \in {"CancelledCommand", "SkippedCommand"}
+                      \/ k.t = "N" /\ row.val.k \in {"FailedInput", "SkippedCommand"}
+         ArtRow(k) == LET row == RowOf(rows, k) IN
+                      [val |-> Val(row.val.k, <<>>, <<>>), sig |-> SigOf(k), built |-> row.built, computed |-> row.computed,
+                       deps |-> [i \in 1..Len(row.deps) |-> [k |-> row.deps[i].k, oo |-> row.deps[i].oo]]]
      IN /\ hasdb => /\ ev.epoch = epoch + 1                       \* the iteration of a failed build is recorded too
                     /\ DOMAIN db \subseteq RowKeys(rows) /\ RowKeys(rows) \subseteq DOMAIN plan.db
-                    /\ \A k \in RowKeys(rows) : New(k) \/ Old(k)
-        /\ db' = IF hasdb THEN [k \in RowKeys(rows) |-> IF New(k) THEN plan.db[k] ELSE db[k]] ELSE <<>>
+                    /\ \A k \in RowKeys(rows) : New(k) \/ Old(k) \/ Art(k)
+        /\ db' = IF hasdb THEN [k \in RowKeys(rows) |-> IF New(k) THEN plan.db[k] ELSE IF Old(k) THEN db[k] ELSE ArtRow(k)] ELSE <<>>
         /\ mem' = db'
   /\ epoch' = epoch + 1
   /\ last' = [a |-> "Aborted", k |-> last.k]
